@@ -44,7 +44,9 @@ def check_mutators(ctx, fb):
             ctx.touch(it)
             inst = "%s::%s" % (name, m)
             n += 1
-            if name == "full" and m == "set_range":
+            if name == "full" and m == "set_range" and fb.closures_of(it.path):
+                # the for_each-closure spelling (a counter captured by reference) has its own reader; a plain loop is summarised
+                # like the other mutators
                 check_full_set_range(ctx, fb, it, inst)
                 continue
             s = treefx.summarize(fb, it)
